@@ -151,7 +151,7 @@ func (p *Pool) Allocate(mac net.HardwareAddr) (net.IP, error) {
 
 	// Check if already allocated
 	if ip, exists := p.allocated[macStr]; exists {
-		return ip, nil
+		return copyIP(ip), nil
 	}
 
 	// Find available IP
@@ -163,7 +163,14 @@ func (p *Pool) Allocate(mac net.HardwareAddr) (net.IP, error) {
 	p.available = p.available[1:]
 	p.allocated[macStr] = ip
 
-	return ip, nil
+	// The caller gets a copy: the slice in the allocation table goes back to the
+	// free list on release, a write through it would corrupt both
+	return copyIP(ip), nil
+}
+
+// copyIP returns a copy of ip that shares no memory with it
+func copyIP(ip net.IP) net.IP {
+	return append(net.IP(nil), ip...)
 }
 
 // Reserve binds ip to mac when a client asks for a specific address (DHCPREQUEST
@@ -204,8 +211,9 @@ func (p *Pool) Release(ip net.IP) {
 	for mac, allocatedIP := range p.allocated {
 		if allocatedIP.Equal(ip) {
 			delete(p.allocated, mac)
-			// Add back to available (at the end)
-			p.available = append(p.available, ip)
+			// Add back to available (at the end): the pool's own slice, not the
+			// caller's (a lease field or packet bytes the caller may reuse)
+			p.available = append(p.available, allocatedIP)
 			return
 		}
 	}
